@@ -167,8 +167,8 @@ func c13(run *ev.Run) int {
 			}
 		}
 	}
-	G, K := run.Pick(24, 64), run.Pick(30, 150)
-	reps := run.Pick(1, 4)
+	G, K := run.Pick(24, 48), run.Pick(30, 60)
+	reps := run.Pick(1, 2)
 	var nextID uint64
 	for rep := 0; rep < reps; rep++ {
 		for _, procs := range []int{16, 4, 1} {
